@@ -170,7 +170,7 @@ def rule_k2(ctx):
                 res.ok({"return": mir.span_str(st["sp"]), "verdict": "errors sorted before they are returned"})
             else:
                 res.bad(Finding("K2", f["id"], "unsorted errors returned", "the accumulated errors are returned without being sorted (order follows hash order)", st["sp"]))
-    if n < 1:
+    if (n < 1) and not res.findings:
         raise AnchorMissing("K2: no `return Err(errs)` of the accumulated error vector found")
     return res
 
